@@ -34,6 +34,22 @@ def seq_check(check, level, assumptions, parts=None, nshards=None, timeout=None,
     return run
 
 
+def lang_check(check, level, assumptions):
+    def run(prop, tier, seed, replay, t0):
+        binary = V.build_langmc()
+        env = dict(os.environ)
+        env["VERIF_REPO_DIR"] = V.REPO
+        if replay:
+            return subprocess.run([binary, check, "-tier", tier, "-replay", replay], env=env).returncode
+        jobs = V.sharded(binary, check, tier, seed, V.NCPU)
+        for j in jobs:
+            j["env"] = env
+        results, failures = V.run_jobs(jobs, os.path.join(V.SCRATCH, "work", prop), 900 if tier == "quick" else 7200)
+        merged = V.merge(results)
+        return V.finish(prop, level, tier, seed, merged, failures, assumptions, t0)
+    return run
+
+
 def sched_check(level, assumptions, budget=None, shards=None, race_pass=None):
     """generic Engine B check: every scenario registered for the property, each sharded over worker processes."""
     budget = budget or {"quick": 90, "thorough": 1200}
@@ -87,6 +103,7 @@ def golden_env(tier):
 
 
 PROPS = {
+    "C15": lang_check("c15", "exploration", ["the printer/dumper of syntax trees in the harness is the reference for 'what the source says'"]),
     "C18": sched_check("model_checking", ["writer programs are interleaved at operation granularity and at pool Get/Put (writers are single-goroutine objects; the shared objects are the pools)",
                                           "unsynchronised accesses are looked for by a separate free-running -race pass over loopback TCP (auxiliary, sampled by wall-clock; the deciding part is the schedule exploration)"],
                        race_pass={"quick": 6, "thorough": 60}),
